@@ -219,7 +219,7 @@ func (e *Engine) noteAssumption(a string) {
 
 func (e *Engine) skipInit(path string) bool {
 	// package initialisers that are never executed (their globals stay zero; stubs cover their use)
-	for _, p := range []string{"go.uber.org/", "github.com/trustbloc/logutil-go", "os", "syscall", "runtime", "time", "reflect", "internal/", "sync", "net", "crypto", "encoding/json", "regexp", "fmt", "log", "io", "bufio", "bytes", "math/big", "math/rand", "compress/", "hash/", "testing", "flag", "context", "go.opentelemetry.io/", "github.com/stretchr/"} {
+	for _, p := range []string{"go.uber.org/", "github.com/trustbloc/logutil-go", "os", "syscall", "runtime", "time", "reflect", "internal/", "sync", "net", "crypto", "encoding/json", "encoding/base64", "encoding/hex", "unicode", "regexp", "fmt", "log", "io", "bufio", "bytes", "math/big", "math/rand", "compress/", "hash/", "testing", "flag", "context", "go.opentelemetry.io/", "github.com/stretchr/"} {
 		if path == p || strings.HasPrefix(path, p) {
 			return true
 		}
